@@ -179,18 +179,29 @@ Definition dbl_ok (k : case) (d : dbl) : bool :=
           | StartError => true
           end) (d_obs d).
 
-(** power loss: the model's recovery on the power-loss image behaves like the real one *)
+(** power loss: the model's recovery on the power-loss image behaves like the real one.  Images in which a
+    write to a VARIABLE-length file is lost are not compared: index and data are then inconsistent in ways
+    (short blocks, a block re-created where a stale index points) that the block-level abstraction of snappy
+    does not describe; what the real code does there is reported by the oracle (finding class
+    powerloss-variable-write-lost), and the one pattern the refutation theorem uses (data lost, index kept,
+    nothing else) is replayed from the corpus. *)
 Definition drop_fn (l : list nat) (i : nat) : bool := existsb (Nat.eqb i) l.
+Definition drops_no_variableb (tr : list event) (kk : nat) (drop : nat -> bool) : bool :=
+  forallb (fun i => match nth_error tr i with
+                    | Some (EVData _ _ _ _) | Some (EVIndex _ _ _ _ _) => negb (drop i)
+                    | _ => true end) (seq 0 kk).
+
 Definition pl_ok (k : case) (p : plobs) : bool :=
   let cl := clen_of (k_clen k) in
   let o := p_obs p in
   let im := PowerLoss.pl_img (k_trace k) (o_k o) (drop_fn (p_drop p)) in
   let '(evs, out) := recover cl (k_own2 k) (k_owner2 k) im in
-  Nat.eqb (model_class out) (if Nat.eqb (o_class o) 0 then 0 else 1)%nat
-  && match out with
-     | StartOk => all2 (bobs_ok (apply_events im evs)) (k_buckets k) (o_buckets o)
-     | StartError => true
-     end.
+  negb (drops_no_variableb (k_trace k) (o_k o) (drop_fn (p_drop p)))
+  || (Nat.eqb (model_class out) (if Nat.eqb (o_class o) 0 then 0 else 1)%nat
+      && match out with
+         | StartOk => all2 (bobs_ok (apply_events im evs)) (k_buckets k) (o_buckets o)
+         | StartError => true
+         end).
 
 Definition agrees (k : case) : bool :=
   trace_ok k && forallb (obs_ok k) (k_obs k) && forallb (dbl_ok k) (k_double k) && forallb (pl_ok k) (k_pl k).
@@ -317,10 +328,6 @@ Definition c34_prop (k : case) : bool :=
 (** C04: the guarded statement that is NOT proved (Properties/C04.v C04_guarded_full), evaluated on the model
     for every explored power-loss image: no variable write lost, crash point outside the windows =>
     the model's recovery succeeds and shows every committed fixed value *)
-Definition drops_no_variableb (tr : list event) (kk : nat) (drop : nat -> bool) : bool :=
-  forallb (fun i => match nth_error tr i with
-                    | Some (EVData _ _ _ _) | Some (EVIndex _ _ _ _ _) => negb (drop i)
-                    | _ => true end) (seq 0 kk).
 Definition c04_prop (k : case) : bool :=
   forallb (fun p =>
     let cl := clen_of (k_clen k) in
